@@ -1,7 +1,116 @@
 import VermouthModel.Proto
-open Proto
+import VermouthModel.C16
+import Generated.C16Layout
+open Proto C16
 
-/-- placeholder driver for C16: replaced when the model is written -/
-def handle (_ : Unit) (_ : List Tok) : Unit × String := ((), "bad-op")
+/-
+Protocol of driver_c16 (layouts come from Generated.C16Layout):
+
+  pdbwrite <conect 0|1> <system>           -> ok [ xLINE ... ]            | err <name>
+  pdbread  [ xEXCL ... ] <ignh> [ xLINE ... ] -> ok [ mol ... ] [ bond ... ] | err <name>
+  growrite <system>                        -> ok [ xLINE ... ]   (atom lines only)
+  groread  [ xEXCL ... ] <ignh> [ xLINE ... ] -> ok [ atom ... ]            | err <name>
+
+  system = [ mol ... ];  mol = [ [ atom ... ] [ [ u v ] ... ] ]
+  atom   = [ key atomid name altloc resname chain resid icode x y z occ temp element ]  ('-' = None)
+-/
+
+def optChars (t : Tok) : Option (Option (List Char)) := do
+  let s ← t.optStr?
+  pure (s.map String.toList)
+
+def atomOf (t : Tok) : Option Atom := do
+  match ← t.list? with
+  | [key, aid, nm, alt, rn, ch, rid, ic, x, y, z, occ, tmp, el] =>
+      pure { key := ← key.int?, atomid := ← aid.optInt?, atomname := ← optChars nm, altloc := ← optChars alt,
+             resname := ← optChars rn, chain := ← optChars ch, resid := ← rid.optInt?, icode := ← optChars ic,
+             x := ← x.int?, y := ← y.int?, z := ← z.int?, occ := ← occ.optInt?, temp := ← tmp.optInt?,
+             element := ← optChars el }
+  | _ => none
+
+def edgeOf (t : Tok) : Option (Int × Int) := do
+  match ← t.list? with
+  | [u, v] => pure (← u.int?, ← v.int?)
+  | _ => none
+
+def molOf (t : Tok) : Option Mol := do
+  match ← t.list? with
+  | [as, es] => pure { atoms := ← (← as.list?).mapM atomOf, edges := ← (← es.list?).mapM edgeOf }
+  | _ => none
+
+def sysOf (t : Tok) : Option (List Mol) := do (← t.list?).mapM molOf
+
+def linesOf (t : Tok) : Option (List (List Char)) := do
+  let l ← strs? t
+  pure (l.map String.toList)
+
+def encChars (s : List Char) : String := encStr (String.ofList s)
+def encLines (ls : List (List Char)) : String := encList (ls.map encChars)
+def errStr (e : Err) : String := "err " ++ e.toString
+
+def encScaled (p : Nat) (v : Int × Nat) : Option String := (toScale p v).map encInt
+
+def encPAtom (a : PAtom) : Option String := do
+  let x ← encScaled 3 a.x
+  let y ← encScaled 3 a.y
+  let z ← encScaled 3 a.z
+  let o ← encScaled 2 a.occ
+  let t ← encScaled 2 a.temp
+  pure (encList [encInt a.atomid, encChars a.atomname, encChars a.altloc, encChars a.resname, encChars a.chain,
+                 encInt a.resid, encChars a.icode, x, y, z, o, t, encChars a.element])
+
+def encGAtom (a : GAtom) : Option String := do
+  let x ← encScaled 3 a.x
+  let y ← encScaled 3 a.y
+  let z ← encScaled 3 a.z
+  pure (encList [encInt a.resid, encChars a.resname, encChars a.atomname, encInt a.atomid, x, y, z,
+                 encChars [a.element]])
+
+def bondLe (a b : Nat × Nat × Nat) : Bool :=
+  a.1 < b.1 || (a.1 == b.1 && (a.2.1 < b.2.1 || (a.2.1 == b.2.1 && a.2.2 ≤ b.2.2)))
+
+def dedupSorted : List (Nat × Nat × Nat) → List (Nat × Nat × Nat)
+  | a :: b :: r => if a = b then dedupSorted (b :: r) else a :: dedupSorted (b :: r)
+  | l => l
+
+def canonBonds (bs : List (Nat × Nat × Nat)) : List (Nat × Nat × Nat) :=
+  dedupSorted ((bs.map fun (m, i, j) => (m, min i j, max i j)).mergeSort bondLe)
+
+def handle (_ : Unit) (toks : List Tok) : Unit × String :=
+  let r : Option String :=
+    match toks with
+    | [Tok.str "pdbwrite", c, s] => do
+        let conect ← c.nat?
+        let sys ← sysOf s
+        match writePdb Layout.pdb (conect != 0) sys with
+        | .ok ls => pure ("ok " ++ encLines ls)
+        | .error e => pure (errStr e)
+    | [Tok.str "pdbread", ex, ih, ls] => do
+        let excl ← linesOf ex
+        let ignh ← ih.nat?
+        let lines ← linesOf ls
+        match readPdb Layout.pdb excl (ignh != 0) lines with
+        | .error e => pure (errStr e)
+        | .ok res =>
+          match res.mols.mapM (fun m => (m.mapM encPAtom).map encList) with
+          | none => pure "err scale"
+          | some ms =>
+            pure ("ok " ++ encList ms ++ " " ++
+              encList ((canonBonds res.bonds).map fun (m, i, j) => encList [encNat m, encNat i, encNat j]))
+    | [Tok.str "growrite", s] => do
+        let sys ← sysOf s
+        pure ("ok " ++ encLines (writeGro Layout.gro sys))
+    | [Tok.str "groread", ex, ih, ls] => do
+        let excl ← linesOf ex
+        let ignh ← ih.nat?
+        let lines ← linesOf ls
+        match readGro Layout.gro excl (ignh != 0) lines with
+        | .error e => pure (errStr e)
+        | .ok atoms =>
+          match atoms.mapM encGAtom with
+          | none => pure "err scale"
+          | some as => pure ("ok " ++ encList as)
+    | _ => none
+  ((), r.getD "bad-op")
 
 def main : IO Unit := runDriver handle ()
